@@ -137,6 +137,7 @@ type double struct {
 	log    *eventLog
 	script []scriptedResult
 	calls  int
+	memo   map[*Node]*redis.Message // non-nil: reply objects are kept and handed out again
 }
 
 func hxs(ss []string) string {
@@ -182,7 +183,26 @@ func (d *double) answer(conn *redis.Conn, call string) (*redis.Message, error) {
 	}
 	var msg *redis.Message
 	if r.msg != nil {
-		msg = r.msg.toMessage()
+		if d.memo != nil {
+			// a handler that keeps its reply objects: the same result is the same *redis.Message every time
+			if m, ok := d.memo[r.msg]; ok {
+				msg = m
+			} else {
+				msg = r.msg.toMessage()
+				d.memo[r.msg] = msg
+			}
+		} else {
+			msg = r.msg.toMessage()
+		}
+	}
+	if d.memo != nil && msg != nil {
+		// ... and that has read part of its own reply before returning it (the read position of a reply is the
+		// handler's business; it must not influence what the client receives)
+		if arr, err := msg.Array(); err == nil && arr != nil {
+			for k := d.calls % 3; k > 0; k-- {
+				arr.Next()
+			}
+		}
 	}
 	if r.err != nil {
 		return msg, fmt.Errorf("%s", *r.err)
@@ -385,6 +405,7 @@ type serveCase struct {
 	wfail     int
 	rerr      string
 	lag       time.Duration
+	memo      bool
 	segs      [][]byte
 	script    []scriptedResult
 }
@@ -464,6 +485,8 @@ func parseServeCase(toks []string) *serveCase {
 			c.wfail, _ = strconv.Atoi(t[6:])
 		case strings.HasPrefix(t, "rerr="):
 			c.rerr = t[5:]
+		case t == "memo":
+			c.memo = true
 		case strings.HasPrefix(t, "lag="):
 			ms, _ := strconv.Atoi(t[4:])
 			c.lag = time.Duration(ms) * time.Millisecond
@@ -492,6 +515,9 @@ type serveResult struct {
 func newServerFor(c *serveCase, log *eventLog) (*redis.Server, *double) {
 	srv := redis.NewServer()
 	d := &double{log: log, script: c.script}
+	if c.memo {
+		d.memo = map[*Node]*redis.Message{}
+	}
 	if !c.noHandler {
 		srv.SetCommandHandler(d)
 	}
